@@ -31,6 +31,7 @@ BUILT = {
  "C14": ("exploration", "Generated responder configurations in every claim state with an exhaustive sweep over all 256 destinations for boundary/random PGNs incl. the address-claim PGN; reference dispatch (callbacks exactly once on owning operational CAs, claim answers, request encoding).", "5/C14"),
  "C15": ("exploration", "PGN space (2^18) enumerated in both tiers, identifier space (2^29) enumerated in the thorough tier (stride sample + boundaries in quick), NAME space covered by exhaustive per-field sweeps, single bits, boundary tuples and Hypothesis draws, all against an independent reference codec.", "5/C15"),
  "C16": ("exploration", "DTC (all 2^19 SPN), lamp (all 5^4) and DM22 codecs enumerated against the J1939-73 bit layout; generated end-to-end DM1 histories (1..400 codes, single frame / BAM / FD multi-PG / FD BAM, several cycles, stop_send then silence) on both layers.", "5/C16"),
+ "C17": ("exploration", "Generated DM14 read/write transactions (1..255 bytes, object sizes 1/2/4/8, raw/converted, signed/unsigned, seed/key on/off, back to back) between two real stacks with blocking application threads in virtual time, judged by a reference memory model, proceed-callback arguments and idleness afterwards.", "5/C17"),
 }
 
 
